@@ -843,6 +843,7 @@ def plan(prop, tier, seed, known):
             jobs.append(seq_job("restart%d" % i, seed * 100 + i, "many,longnames,mix,names,data", 4 if q else 8, 250 if q else 500, av,
                                 disk=12000, dumpeach=40, extra=["-snapeach", "10"]))
         jobs.append(probe_job(prop, av))
+        jobs += design_jobs("Icache", ["Icache"], [], [("Icache_nodrop", "Coherent"), ("Icache_nowrite", "Coherent")], q)
     elif prop == "C09":
         n = 5 if q else 40
         for i in range(n):
